@@ -51,7 +51,8 @@ COMPONENTS = {
              "stat metadata", "temp-file names", "write buffering"],
 }
 PROBES = {"image_with_stale_lock": 1, "image_with_tmp_pack": 1,
-          "power_loss_image": 1, "pack_without_idx": 1}
+          "power_loss_image": 1, "pack_without_idx": 1,
+          "operation_retried_on_crash_image": 1}
 MIN_BUDGET = 60
 
 OPS = ["add_objects", "commit_tree", "porcelain_commit", "ref_set", "ref_cas",
@@ -60,6 +61,9 @@ OPS = ["add_objects", "commit_tree", "porcelain_commit", "ref_set", "ref_cas",
        "index_write", "config_write", "commit_graph", "midx", "fetch_local",
        "tag_create", "branch_delete_packed", "two:commit+pack_refs",
        "two:add_pack+gc"]
+
+
+REDO_OPS = ("add_objects", "add_thin_pack", "add_pack", "fetch_local")
 
 
 FAULT_COUNTERS = {
@@ -86,6 +90,9 @@ def gen_plan(seed, tier):
         "buffering": rng.choice([-1, -1, 64, 512, 4096]),
         "followup_gc": rng.random() < 0.25,
         "only": None,
+        # the restarted process does what any caller does after a crash: the
+        # same operation again
+        "redo": rng.random() < 0.6,
     }
 
 
@@ -448,6 +455,26 @@ def check_image(img, sc, plan, allowed_refs, must_have, files_allowed, model,
                             f"lock file: {e}"))
         except BaseException as e:  # noqa: BLE001
             out.append(("followup-op-failed", f"{type(e).__name__}: {e}"))
+        if plan.get("redo") and plan["op"] in REDO_OPS and not locks:
+            stats["probe:operation_retried_on_crash_image"] = 1
+            try:
+                run_op(plan["op"], r, sc, plan)
+            except BaseException as e:  # noqa: BLE001
+                out.append(("retry-failed", f"{type(e).__name__}: {e}"))
+            else:
+                # it reported success: what it delivers is there
+                probs = []
+                for oid in sc.new_ids:
+                    try:
+                        tn, raw = st.get_raw(oid)
+                        if not _hash_ok(oid, tn, raw):
+                            probs.append((oid, "wrong bytes"))
+                    except BaseException as e:  # noqa: BLE001
+                        probs.append((oid, type(e).__name__))
+                if probs:
+                    out.append(("retry-succeeded-objects-missing",
+                                f"{len(probs)} of {len(sc.new_ids)}: "
+                                f"{probs[:3]}"))
         if plan.get("followup_gc"):
             from dulwich.gc import garbage_collect
             try:
